@@ -245,6 +245,7 @@ theorem backing_of_sides {Pu nD eD n e b : Nat} (hPu0 : 0 < Pu) (hbP : b ≤ Pu)
   have se := side_after_ge' (Do := nD) hPu0 hbP he be
   have hPu : (0 : ℚ) < (Pu : ℚ) := by exact_mod_cast hPu0
   unfold backingOK
+  rw [if_pos (Nat.sub_le _ _)]
   simp only [decide_eq_true_eq]
   have key : ((nD * eD * ((Pu - b) * (Pu - b)) : Nat) : ℚ) ≤
       (((nD - n + dust nD eD (nD - n)) * (eD - e + dust eD nD (eD - e)) * (Pu * Pu) : Nat) : ℚ) := by
